@@ -33,13 +33,14 @@ META = {
     "design_ref": "5.5 C24",
 }
 
-MC_INV = ["TypeOK", "Length", "NeverEndsWithoutLimit", "NotStuck", "DelayBounds", "BandNonEmpty", "IndexBounded",
+MC_INV = ["TypeOK", "Length", "NeverEndsWithoutLimit", "NotStuck", "Independent", "DelayBounds", "BandNonEmpty", "IndexBounded",
           "CappedIsExact", "FollowsCurve"]
 TR_INV = ["TypeOK", "Length", "NeverEndsWithoutLimit", "DelayBounds", "BandNonEmpty", "IndexBounded"]
-WITNESSES = ["Saturated", "ZeroAttempts", "ClampMax", "ClampBase", "LongUnlimited"]
+WITNESSES = ["Saturated", "ZeroAttempts", "ClampMax", "ClampBase", "LongUnlimited", "SecondScheduleComplete",
+             "TwoSchedulesInterleaved"]
 DELAYS = [0, 1, 2, 5, 60]
 ATTEMPTS = [None, 0, 1, 2, 3, 64]
-CONSTS = {"Delays": set(DELAYS), "AttemptChoices": {0, 1, 2, 3, 64}, "Horizon": 70}
+CONSTS = {"Delays": set(DELAYS), "AttemptChoices": {0, 1, 2, 3, 64}, "Horizon": 70, "MaxSched": 3, "MultiHorizon": 3}
 
 
 def parameter_tuples():
@@ -62,14 +63,16 @@ def parameter_tuples():
 def classify(trace, pos):
     """Stable reason why event `pos` (1-based) of a trace was rejected - no band arithmetic here."""
     new, ev = trace[0], trace[pos - 1]
-    emitted = sum(1 for e in trace[1:pos - 1] if e["e"] == "Emit")
+    sch = ev.get("s", 1)
+    emitted = sum(1 for e in trace[1:pos - 1] if e["e"] == "Emit" and e.get("s", 1) == sch)
     att = new["attempts"]
+    later = ":later-schedule" if sch > 1 else ""          # a schedule taken from a policy object that already gave one out
     if ev["e"] == "Emit":
         if att != -1 and emitted >= att:
-            return "extra-item"
-        return "out-of-band"
+            return "extra-item" + later
+        return "out-of-band" + later
     if ev["e"] == "Stop":
-        return "ends-without-limit" if att == -1 else "early-stop"
+        return ("ends-without-limit" if att == -1 else "early-stop") + later
     if ev["e"] == "Raise":
         return "raise:%s" % ev.get("cls")
     return ev["e"]
@@ -92,7 +95,7 @@ def run(ctx):
                       replay={"trace": [dict(s) for _, s in res.trace()]}, signature="spec:%s" % res.invariant)
         return
     cov = res.coverage()
-    zero = [a for a in ("EmitAny", "Stop") if a not in cov or cov[a][1] == 0]
+    zero = [a for a in ("SchedMC", "EmitAny", "StopAny") if a not in cov or cov[a][1] == 0]
     if zero:
         raise tlc.MachineryError("actions never taken in the exhaustive model: %s" % zero)
     unreached = [w for w in WITNESSES if cov.get("W_" + w, (0, 0))[1] == 0]
@@ -117,6 +120,21 @@ def run(ctx):
             meta.append({"kind": kind, "params": list(params), "jitter": mode, "items": len(items), "limit": limit,
                          "ended": t[-1]["e"] == "Stop", "head": [repr(x) for x in items[:4]]})
             items_total += len(items)
+    # several schedules from ONE policy object (a host down again, several hosts down at once), consumed interleaved
+    n_multi = 0
+    for kind, params in tuples:
+        n = params[-1]
+        if n is not None and n > 64:
+            continue
+        for _ in range(1 if ctx.quick else 3):
+            per_limit = 30 if n is None else n + 5
+            t, counts = rr.record_multi(kind, params, jitter="rng", rng=ctx.rng, nsched=3, per_limit=per_limit)
+            traces.append(t)
+            meta.append({"kind": kind, "params": list(params), "jitter": "rng/3-schedules", "items": sum(counts.values()),
+                         "limit": 0, "ended": True, "head": [repr(counts)], "multi": True})
+            items_total += sum(counts.values())
+            n_multi += 1
+    ctx.note("multi_schedule_traces", n_multi)
     good = len(traces)
     ctx.note("parameter_tuples", len(tuples))
     ctx.note("items_observed", items_total)
@@ -126,21 +144,29 @@ def run(ctx):
 
     # binding self-test on hand-written traces (independent of the code under test): two valid controls,
     # an out-of-band delay late and early, an extra item before Stop, a missing item before Stop
-    def emit(d):
-        return {"e": "Emit", "dlo": d, "dhi": d}
-    ok_unl = [{"e": "New", "policy": "exponential", "base": 1, "max": 60, "attempts": -1}] + \
+    def emit(d, sch=1):
+        return {"e": "Emit", "s": sch, "dlo": d, "dhi": d}
+
+    def ev(name, sch):
+        return {"e": name, "s": sch, "dlo": 0, "dhi": 0}
+    ok_unl = [{"e": "New", "s": 0, "policy": "exponential", "base": 1, "max": 60, "attempts": -1}, ev("Sched", 1)] + \
              [emit(100 * 2 ** i) for i in range(6)] + [emit(6000)] * 1494
-    ok_fin = [{"e": "New", "policy": "exponential", "base": 2, "max": 60, "attempts": 3},
-              emit(200), emit(400), emit(800), {"e": "Stop", "dlo": 0, "dhi": 0}]
+    ok_fin = [{"e": "New", "s": 0, "policy": "exponential", "base": 2, "max": 60, "attempts": 3}, ev("Sched", 1),
+              emit(200), emit(400), emit(800), ev("Stop", 1)]
     bad1 = copy.deepcopy(ok_unl)
-    bad1[1500] = emit(6001)                                  # item index 1499: band is [5100, 6000]
+    bad1[1501] = emit(6001)                                  # item index 1499: band is [5100, 6000]
     bad2 = copy.deepcopy(ok_fin)
-    bad2.insert(4, emit(1600))
+    bad2.insert(5, emit(1600))
     bad3 = copy.deepcopy(ok_fin)
-    del bad3[3]
+    del bad3[4]
     bad4 = copy.deepcopy(ok_unl)
-    bad4[3] = emit(169)                                      # index 2: raw 4 -> [340, 460]
-    selftests = [(ok_unl, len(ok_unl) + 1), (ok_fin, len(ok_fin) + 1), (bad1, 1501), (bad2, 5), (bad3, 4), (bad4, 4)]
+    bad4[4] = emit(169)                                      # index 2: raw 4 -> [340, 460]
+    # two schedules of one constant policy (delay 2, 2 attempts), interleaved; and what a shared position looks like
+    ok_multi = [{"e": "New", "s": 0, "policy": "constant", "base": 2, "max": 2, "attempts": 2}, ev("Sched", 1), emit(200, 1),
+                ev("Sched", 2), emit(200, 2), emit(200, 1), ev("Stop", 1), emit(200, 2), ev("Stop", 2)]
+    bad5 = ok_multi[:5] + [ev("Stop", 1), ev("Stop", 2)]     # both end after one item each: rejected at Stop(1)
+    selftests = [(ok_unl, len(ok_unl) + 1), (ok_fin, len(ok_fin) + 1), (ok_multi, len(ok_multi) + 1),
+                 (bad1, 1502), (bad2, 6), (bad3, 5), (bad4, 5), (bad5, 6)]
     traces_all = traces + [b for b, _ in selftests]
 
     tcfg = tlc.write_cfg(os.path.join(ctx.scratch, "trace.cfg"), init="TraceInit", next="TraceNext", constants=CONSTS,
@@ -155,8 +181,8 @@ def run(ctx):
         if prog[good + j] != where:
             raise tlc.MachineryError("binding self-test %d failed: corrupted trace stopped at %s, expected %s"
                                      % (j + 1, prog[good + j], where))
-    ctx.note("binding_selftest", {"valid_controls_accepted": 2, "out_of_band_rejected": 2, "extra_item_rejected": 1,
-                                  "missing_item_rejected": 1})
+    ctx.note("binding_selftest", {"valid_controls_accepted": 3, "out_of_band_rejected": 2, "extra_item_rejected": 1,
+                                  "missing_item_rejected": 1, "shared_position_rejected": 1})
 
     accepted = 0
     seen = {}
@@ -191,9 +217,10 @@ def run(ctx):
         return next(i for i, m in enumerate(meta) if pred(m))
     i_unl = find(lambda m: m["kind"] == "exponential" and m["params"] == [1, 60, None] and m["jitter"] == "rng")
     i_fin = find(lambda m: m["kind"] == "exponential" and m["params"] == [2, 60, 3] and m["jitter"] == "rng")
+    i_mul = find(lambda m: m["kind"] == "constant" and m["params"] == [2, 3] and m.get("multi"))
     if not overflow and not seen:
         raise tlc.MachineryError("no recorded schedule went through the OverflowError path (float base, i >= 1024)")
-    for i in [i_unl, i_fin] + [meta.index(m) for m in overflow[:1]]:
+    for i in [i_unl, i_fin, i_mul] + [meta.index(m) for m in overflow[:1]]:
         ctx.sample({"schedule": {k: (repr(v) if k == "params" else v) for k, v in meta[i].items()},
                     "events": traces[i][:6] + (traces[i][-2:] if len(traces[i]) > 8 else [])})
 
@@ -208,9 +235,11 @@ def run(ctx):
         bad = None
         if out["attempts"] != n or out["truncated"]:
             bad = "extra-item" if (out["attempts"] > n or out["truncated"]) else "early-stop"
+            if out["per_handler"][0] == n and not out["truncated"]:
+                bad += ":later-schedule"           # the first handler of the policy object was served correctly
         if bad:
-            report("%s policy %r: _ReconnectionHandler made %d attempts%s, max_attempts=%d"
-                          % (kind, params, out["attempts"], " (and goes on)" if out["truncated"] else "", n),
+            report("%s policy %r: three _ReconnectionHandlers of one policy object made %s attempts%s, max_attempts=%d each"
+                          % (kind, params, out["per_handler"], " (and go on)" if out["truncated"] else "", n),
                           replay={"kind": kind, "params": list(params), "jitter": "rng", "handler": True, "reason": bad},
                           signature="%s:attempts=%s:%s" % (kind, att_class(n), bad))
     ctx.note("handler_runs", handler_runs)
@@ -230,10 +259,19 @@ def replay(ctx, r):
     if r.get("handler"):
         out = rr.drive_handler(r["kind"], tuple(r["params"]), jitter="rng", rng=ctx.rng,
                                limit=max(200, (r["params"][-1] or 0) + 50))
-        print("handler:", {k: v for k, v in out.items() if k != "delays"}, "delays[:5] =", out["delays"][:5])
+        print("handlers of one policy object:", {k: v for k, v in out.items() if k != "delays"})
         n = r["params"][-1]
         if out["attempts"] != n or out["truncated"]:
             ctx.violation("replayed: %d attempts for max_attempts=%s" % (out["attempts"], n), replay=r)
+        return
+    if str(r["jitter"]).endswith("3-schedules"):
+        n = r["params"][-1]
+        t, counts = rr.record_multi(r["kind"], tuple(r["params"]), jitter="rng", rng=ctx.rng, nsched=3,
+                                    per_limit=30 if n is None else n + 5)
+        print("three schedules of one policy object:", [(e["e"], e["s"]) for e in t[:40]])
+        print("items per schedule:", counts, "max_attempts:", n)
+        if n is not None and any(c != n for c in counts.values()):
+            ctx.violation("replayed: schedules of one policy object yield %s items, max_attempts=%s" % (counts, n), replay=r)
         return
     t, items = rr.record(r["kind"], tuple(r["params"]), jitter=r["jitter"], rng=ctx.rng)
     print("kind=%s params=%r jitter=%s items=%d ended=%s" % (r["kind"], r["params"], r["jitter"], len(items), t[-1]["e"] == "Stop"))
